@@ -58,6 +58,13 @@ def parse? (s : String) : Option Dec :=
   let (fp, rest) := match rest with
     | '.' :: r => (r.takeWhile Char.isDigit, r.dropWhile Char.isDigit)
     | _ => ([], rest)
+  -- strconv.ParseFloat also reads "inf" / "infinity" in any case, with an optional sign: an infinity orders above
+  -- (below) every number, which a number beyond the range of float64 stands for here ("nan" is not modelled: the
+  -- generators do not produce it)
+  let lower := cs.map Char.toLower
+  if lower == "inf".toList || lower == "infinity".toList then
+    some (ofInt ((if neg then -1 else 1) * (10 : Int) ^ 400))
+  else
   if ip.isEmpty && fp.isEmpty then none
   else
     let mant : Nat := (ip ++ fp).foldl (fun acc c => acc * 10 + (c.toNat - 48)) 0
